@@ -197,7 +197,7 @@ func Val(typ string, nullPct int, reps bool) *rapid.Generator[script.Val] {
 				f = rapid.Float64().Draw(t, "f")
 			}
 			v.F = math.Float64bits(f)
-		case "text", "varchar", "name", "bpchar":
+		case "text", "varchar", "name", "bpchar", "custom":
 			v.S = CString(300).Draw(t, "s")
 		case "json", "jsonb":
 			v.S = rapid.SampledFrom([]string{`{}`, `[]`, `null`, `{"a":1}`, `"s"`, `[1,2,{"k":"é"}]`, `0`, `{"q":"\"\\"}`, ` {"sp": true} `}).Draw(t, "json")
